@@ -32,7 +32,14 @@ pub mod model {
     use std::cell::UnsafeCell;
     use std::ops::Range;
 
+    /// 8 by default; harness crates whose stored values are themselves maps (aquatic_ws: peers
+    /// hold a map of pending offers) build with `--cfg verif_cap4` to keep the objects small.
+    #[cfg(not(verif_cap4))]
     pub const CAP: usize = 8;
+    #[cfg(all(verif_cap4, not(verif_cap2)))]
+    pub const CAP: usize = 4;
+    #[cfg(verif_cap2)]
+    pub const CAP: usize = 2;
 
     /// Insertion-ordered map: linear search over an array of pairs.
     ///
@@ -440,6 +447,56 @@ pub mod model {
             self.map.push_unchecked(self.k, v);
             let n = self.map.len;
             &mut self.map.at_mut(n - 1).1
+        }
+    }
+
+    // --- trait impls needed to compile derives on types that contain the map (ws ScrapeResponse)
+    impl<K: PartialEq, V: PartialEq> PartialEq for IndexMap<K, V> {
+        fn eq(&self, o: &Self) -> bool {
+            if self.len != o.len {
+                return false;
+            }
+            let mut i = 0;
+            while i < CAP {
+                if i >= self.len {
+                    break;
+                }
+                if self.at(i) != o.at(i) {
+                    return false;
+                }
+                i += 1;
+            }
+            true
+        }
+    }
+    impl<K: Eq, V: Eq> Eq for IndexMap<K, V> {}
+    impl<K: serde::Serialize, V: serde::Serialize> serde::Serialize for IndexMap<K, V> {
+        fn serialize<S: serde::Serializer>(&self, s: S) -> Result<S::Ok, S::Error> {
+            use serde::ser::SerializeMap;
+            let mut m = s.serialize_map(Some(self.len))?;
+            for (k, v) in self.iter() {
+                m.serialize_entry(k, v)?;
+            }
+            m.end()
+        }
+    }
+    impl<'de, K: serde::Deserialize<'de> + Eq, V: serde::Deserialize<'de>> serde::Deserialize<'de> for IndexMap<K, V> {
+        fn deserialize<D: serde::Deserializer<'de>>(d: D) -> Result<Self, D::Error> {
+            struct Vis<K, V>(std::marker::PhantomData<(K, V)>);
+            impl<'de, K: serde::Deserialize<'de> + Eq, V: serde::Deserialize<'de>> serde::de::Visitor<'de> for Vis<K, V> {
+                type Value = IndexMap<K, V>;
+                fn expecting(&self, f: &mut std::fmt::Formatter) -> std::fmt::Result {
+                    f.write_str("map")
+                }
+                fn visit_map<A: serde::de::MapAccess<'de>>(self, mut a: A) -> Result<Self::Value, A::Error> {
+                    let mut m = IndexMap::default();
+                    while let Some((k, v)) = a.next_entry()? {
+                        m.insert(k, v);
+                    }
+                    Ok(m)
+                }
+            }
+            d.deserialize_map(Vis(std::marker::PhantomData))
         }
     }
 
